@@ -124,6 +124,36 @@ def _campaign(mod, args, seed, runner, findings, evidence):
         _write_evidence(mod, camp, tier, seed, t0, evidence, {}, {}, harness=True)
         return 2
 
+    # A time limit hit while 16 shards (and whatever else) shared the machine is not yet a hang: the case is run again,
+    # alone, with a five times longer limit.  If it finishes, the campaign is inconclusive for that case, not violated.
+    slow = []
+    if "hang" in tot.viols:
+        still = []
+        for case, out in tot.viols.pop("hang"):
+            if still:
+                still.append((case, out))      # one confirmed hang is enough
+                continue
+            again = _rerun_alone(mod, case, runner)
+            if again.get("st") == "viol" and again.get("sig") == "hang":
+                still.append((case, again))
+            elif again.get("st") == "viol":
+                tot.viols.setdefault(again["sig"], []).append((case, again))
+                tot.viol_counts[again["sig"]] += 1
+            elif again.get("st") == "harness":
+                print("HARNESS-ERROR re-running a timed-out case:\n%s" % again.get("detail"))
+                return 2
+            else:
+                slow.append(common.case_hash(case))
+        if still:
+            tot.viols["hang"] = still
+        else:
+            tot.viol_counts.pop("hang", None)
+        if slow:
+            tot.inconclusive = True
+            tot.labels["timeout_under_load_finished_alone"] += len(slow)
+            print("note: %d case(s) hit the %d s limit under load and finished when run alone (inconclusive, not a violation)"
+                  % (len(slow), runner.CASE_TIMEOUT_S))
+
     # bucket -> known finding or unexplained
     known_seen = {}
     unexplained = {}
@@ -147,13 +177,14 @@ def _campaign(mod, args, seed, runner, findings, evidence):
     if unexplained:
         os.makedirs(os.path.join(common.REPLAYS, mod.ID), exist_ok=True)
         per_bucket = 8 if tier == "quick" else 60
+        shrink_deadline = time.time() + (60 if tier == "quick" else 900)     # for all buckets together
         isolated = getattr(mod, "REPLAY_ISOLATED", False)
         for sig, lst in sorted(unexplained.items()):
             lst.sort(key=lambda co: len(common.canon(co[0])))
             case, out = lst[0]
             steps = 0
-            if not args.no_shrink and not sig.startswith("crash") and not sig.startswith("hang"):
-                case, steps = runner.shrink(mod, case, sig, per_bucket,
+            if not args.no_shrink and not sig.startswith("crash") and not sig.startswith("hang") and time.time() < shrink_deadline:
+                case, steps = runner.shrink(mod, case, sig, min(per_bucket, max(1, shrink_deadline - time.time())),
                                             runner=(camp._isolated if isolated else None))
             if steps:
                 # describe the shrunk case, not the original one
@@ -178,6 +209,25 @@ def _campaign(mod, args, seed, runner, findings, evidence):
                                                 sum(tot.discards.values()), len(unexplained), len(known_seen),
                                                 status, time.time() - t0))
     return 1 if unexplained else 0
+
+
+def _rerun_alone(mod, case, runner):
+    import subprocess
+    import tempfile
+    with tempfile.TemporaryDirectory() as d:
+        p = os.path.join(d, "case.json")
+        with open(p, "w") as f:
+            json.dump({"property": mod.ID, "case": case}, f, default=str)
+        env = dict(os.environ, VF_CASE_TIMEOUT=str(runner.CASE_TIMEOUT_S * 5), VF_NO_REEXEC_NOTE="1")
+        try:
+            r = subprocess.run([sys.executable, "-m", "vf.cli", mod.ID, "--replay", p, "--raw"], capture_output=True, text=True,
+                               env=env, cwd=common.VERIF, timeout=runner.CASE_TIMEOUT_S * 5 + 120)
+        except subprocess.TimeoutExpired:
+            return {"st": "viol", "sig": "hang", "detail": "case did not finish within %d s when run alone" % (runner.CASE_TIMEOUT_S * 5)}
+        for line in r.stdout.splitlines():
+            if line.startswith("OUTCOME "):
+                return json.loads(line[8:])
+        return {"st": "viol", "sig": "crash:exit%d" % r.returncode, "detail": (r.stdout + r.stderr)[-1500:]}
 
 
 def _write_evidence(mod, camp, tier, seed, t0, evidence, known_seen, replay_paths, harness=False):
